@@ -1906,10 +1906,14 @@ impl TypeSpace {
         schema: &'a SchemaObject,
         enum_values: &[serde_json::Value],
     ) -> Result<(TypeEntry, &'a Option<Box<Metadata>>)> {
-        let type_schema = SchemaObject {
+        let mut type_schema = SchemaObject {
             enum_values: None,
             ..schema.clone()
         };
+        // The title names the newtype; the inner type is named after it.
+        if let Some(metadata) = type_schema.metadata.as_mut() {
+            metadata.title = None;
+        }
 
         let inner_type_name = match get_type_name(&type_name, &schema.metadata) {
             Some(s) => Name::Suggested(format!("{}Inner", s)),
@@ -1918,6 +1922,11 @@ impl TypeSpace {
 
         let (type_entry, metadata) =
             self.convert_schema_object(inner_type_name, original_schema, &type_schema)?;
+        let metadata = if metadata.is_some() {
+            &schema.metadata
+        } else {
+            &None
+        };
 
         // Make sure all the values are valid.
         enum_values
@@ -1935,14 +1944,7 @@ impl TypeSpace {
             original_schema.clone(),
         );
 
-        Ok((
-            newtype_entry,
-            if metadata.is_some() {
-                &schema.metadata
-            } else {
-                &None
-            },
-        ))
+        Ok((newtype_entry, metadata))
     }
 
     fn convert_unknown_enum<'a>(
